@@ -83,6 +83,12 @@ func rulesC17(c *Ctx) {
 	R.Rule("R10", "a refusal by the mint or a failed step is never taken for success: in the wallet, its network client and its storage the error of every call is tested nil, classified or handed on before any return that may report success (sites where continuing is intended are a frozen table)", 70)
 	c.ruleErrorDisciplinePkgs("R10", []string{"wallet", "wallet/*"}, errToleratedWallet, 70)
 	R.Rule("R11", "Melt commits proofs only to a quote that is neither paid nor in flight: selection and submission lie behind 'stored state != PAID' and behind 'stored state != PENDING, or the re-check answered neither PENDING nor PAID'", 3)
+	R.Rule("R14", "who may release: the wallet storage methods that delete pending proofs are called only from the melt, the melt-quote poll and the maintenance calls that ask the mint for the proofs' state first", 5)
+	c.ruleWalletPendingReleaseCallers("R14")
+	R.Rule("R15", "the wallet never abandons a request on its own clock: the network layer sets no http.Client timeout and no context deadline (an error is read as 'not executed' everywhere above it)", 1)
+	c.ruleClientNoOwnDeadline("R15")
+	R.Rule("R13", "existing proofs pay the fee of their own keysets: the count-based fee helper is never applied to the length of a list of proofs (shared with C18)", 1)
+	c.ruleFeeOfExistingProofs("R13")
 	R.Rule("R12", "foreign proofs stay out of the wallet: on the swap-to-trusted path no storage write takes the proofs of the received token (or of its pre-swap at the untrusted mint)", 1)
 	c.c17ForeignProofsStayOut("R12")
 	c.c17MeltOnlyOpenQuote()
@@ -1523,4 +1529,173 @@ func (c *Ctx) c17MeltOnlyOpenQuote() {
 			R.Check("R11", fk, c.P.Describe(s).Name+" <= "+cd.Name, c.P.InstrPos(s), ok, "Melt selects and submits proofs only for a quote that is still open", why)
 		}
 	}
+}
+
+// ruleFeeOfExistingProofs: R13 (shared with C18). Proofs the wallet already holds each pay the fee of their OWN
+// keyset; only outputs that do not exist yet (all on the active keyset) may be priced by a count. Decided as a census
+// of the count-based fee helper: no call of it takes the length of a list of proofs as its count.
+func (c *Ctx) ruleFeeOfExistingProofs(rule string) {
+	R := c.R
+	isProofList := func(t types.Type) bool {
+		var el types.Type
+		switch u := t.Underlying().(type) {
+		case *types.Slice:
+			el = u.Elem()
+		case *types.Array:
+			el = u.Elem()
+		case *types.Map:
+			el = u.Elem()
+		default:
+			return false
+		}
+		st, ok := el.Underlying().(*types.Struct)
+		if !ok {
+			return false
+		}
+		hasSecret, hasC := false, false
+		for i := 0; i < st.NumFields(); i++ {
+			switch st.Field(i).Name() {
+			case "Secret":
+				hasSecret = true
+			case "C":
+				hasC = true
+			}
+		}
+		return hasSecret && hasC
+	}
+	var lenOfProofs func(v ssa.Value, depth int) bool
+	lenOfProofs = func(v ssa.Value, depth int) bool {
+		if depth > 6 {
+			return false
+		}
+		switch x := v.(type) {
+		case *ssa.Call:
+			if x := lenArg(x); x != nil {
+				return isProofList(x.Type())
+			}
+		case *ssa.BinOp:
+			return lenOfProofs(x.X, depth+1) || lenOfProofs(x.Y, depth+1)
+		case *ssa.Convert:
+			return lenOfProofs(x.X, depth+1)
+		case *ssa.ChangeType:
+			return lenOfProofs(x.X, depth+1)
+		case *ssa.Phi:
+			for _, e := range x.Edges {
+				if lenOfProofs(e, depth+1) {
+					return true
+				}
+			}
+		}
+		return false
+	}
+	n := 0
+	for _, f := range c.P.Funcs {
+		for _, ci := range Calls(f) {
+			d := c.P.Describe(ci)
+			if d.Name != "wallet.feesForCount" || len(d.Args) < 1 {
+				continue
+			}
+			n++
+			bad := lenOfProofs(d.Args[0], 0)
+			R.Check(rule, c.P.FuncKey(EnclosingTop(f)), "count-based fee is not applied to existing proofs", c.P.InstrPos(ci), !bad,
+				"the fee of proofs the wallet holds is the sum of their own keysets' fees (feesForProofs), a count and one keyset prices only outputs yet to be made",
+				"the count is the length of a list of proofs: their fee is taken from one keyset whatever keyset each belongs to")
+		}
+	}
+	if n == 0 {
+		R.Trivial(rule, "wallet", "count-based fee helper", "wallet/wallet.go", "no call of a count-based fee helper on this tree")
+	}
+}
+
+// ruleWalletPendingReleaseCallers: R14. Pending proofs leave the pending bucket only where the rules above have
+// looked: the melt, the melt-quote poll, and the two maintenance calls that ask the mint for the proofs' state
+// first. Who-may-call census of the wallet storage methods that delete pending proofs: every call site lies in one of
+// those functions, or in a helper new on this tree all of whose callers do.
+func (c *Ctx) ruleWalletPendingReleaseCallers(rule string) {
+	R := c.R
+	allowed := map[string]bool{
+		"wallet.(*Wallet).Melt":                 true,
+		"wallet.(*Wallet).CheckMeltQuoteState":  true,
+		"wallet.(*Wallet).RemoveSpentProofs":    true,
+		"wallet.(*Wallet).ReclaimUnspentProofs": true,
+	}
+	var okFn func(f *ssa.Function, depth int) bool
+	okFn = func(f *ssa.Function, depth int) bool {
+		f = EnclosingTop(f)
+		if allowed[c.P.FuncKey(f)] {
+			return true
+		}
+		if depth > 4 || !c.P.IsNewFunc(f) {
+			return false
+		}
+		callers := c.callersOf(f)
+		if len(callers) == 0 {
+			return false
+		}
+		for _, s := range callers {
+			if !okFn(s.Parent(), depth+1) {
+				return false
+			}
+		}
+		return true
+	}
+	n := 0
+	for _, f := range c.P.Funcs {
+		top := EnclosingTop(f)
+		if top.Pkg == nil || c.P.Rel(top.Pkg.Pkg.Path()) != "wallet" {
+			continue
+		}
+		for _, name := range []string{"DeletePendingProofsByQuoteId", "DeletePendingProofs"} {
+			for _, ci := range c.callsOfWalletDB(f, name) {
+				n++
+				R.Check(rule, c.P.FuncKey(top), "pending proofs deleted only by the melt, its poll and the state-checked maintenance calls ("+name+")", c.P.InstrPos(ci), okFn(f, 0),
+					"pending proofs are released or dropped only where the mint's answer decides it", "this function deletes pending proofs but is not one of the examined ones")
+			}
+		}
+	}
+	if n < 5 {
+		R.Unresolved(rule, "wallet calls that delete pending proofs", fmt.Sprintf("found %d, expected at least 5", n))
+	}
+}
+
+// ruleClientNoOwnDeadline: R15. The wallet takes any error of a swap / mint / melt call for "not executed". That is
+// only sound while the transport gives up for the mint's reasons, never on the wallet's own clock: a request the mint
+// has executed but answers late would otherwise leave spent inputs in the wallet and signed outputs nowhere. Census of
+// the network layer: no http.Client with a Timeout, no context deadline.
+func (c *Ctx) ruleClientNoOwnDeadline(rule string) {
+	R := c.R
+	n := 0
+	for _, f := range c.P.Funcs {
+		top := EnclosingTop(f)
+		if top.Pkg == nil || c.P.Rel(top.Pkg.Pkg.Path()) != "wallet/client" {
+			continue
+		}
+		n++
+		for _, b := range f.Blocks {
+			for _, in := range b.Instrs {
+				switch x := in.(type) {
+				case *ssa.Store:
+					if fa, ok := x.Addr.(*ssa.FieldAddr); ok && fieldName(fa) == "Timeout" {
+						if pt, ok := fa.X.Type().Underlying().(*types.Pointer); ok && strings.HasSuffix(pt.Elem().String(), "net/http.Client") {
+							if k, isC := x.Val.(*ssa.Const); !isC || (k.Value != nil && k.Value.ExactString() != "0") {
+								R.Check(rule, c.P.FuncKey(top), "no client-side timeout on requests to the mint", c.P.InstrPos(in), false,
+									"the network layer does not abandon a request on its own clock", "an http.Client with a Timeout is configured")
+							}
+						}
+					}
+				case ssa.CallInstruction:
+					switch c.P.Describe(x).Name {
+					case "context.WithTimeout", "context.WithDeadline", "time.After", "time.AfterFunc":
+						R.Check(rule, c.P.FuncKey(top), "no client-side deadline on requests to the mint", c.P.InstrPos(in), false,
+							"the network layer does not abandon a request on its own clock", "a deadline / timer is set up in the network layer")
+					}
+				}
+			}
+		}
+	}
+	if n == 0 {
+		R.Unresolved(rule, "wallet/client functions", "none found")
+		return
+	}
+	R.Check(rule, "wallet/client", "network layer examined", "wallet/client", true, fmt.Sprintf("%d functions of the network layer examined: none sets a timeout or deadline of its own", n), "")
 }
